@@ -1173,7 +1173,10 @@ sansScaling (const Matrix33<T>& mat, bool exc)
     Matrix33<T> M;
 
     M.translate (tran);
-    M.rotate (rot);
+    // Matrix33::rotate post-multiplies, which would rotate the
+    // translation as well; the rotation belongs between the shear
+    // and the translation.
+    M = Matrix33<T> ().setRotation (rot) * M;
     M.shear (shr);
 
     return M;
@@ -1192,7 +1195,10 @@ removeScaling (Matrix33<T>& mat, bool exc)
 
     mat.makeIdentity ();
     mat.translate (tran);
-    mat.rotate (rot);
+    // Matrix33::rotate post-multiplies, which would rotate the
+    // translation as well; the rotation belongs between the shear
+    // and the translation.
+    mat = Matrix33<T> ().setRotation (rot) * mat;
     mat.shear (shr);
 
     return true;
